@@ -407,18 +407,72 @@ package main
 //@   props C07 C09 C06
 //@   panics iff true
 
+//@ func psIdentNameNxL
+//@   props C16 C03
+//@   requires live: live(ps)
+//@   panics may
+//@   ensures ident: ps.tkz.current.ttype == New_TokenType_IDENTIFIER && result.E0 == skipeol(adv(ps)) && result.E1 == ps.tkz.current.stringVal
+//@   ensures kept: live(result.E0) && samebuf(result.E0, ps) && result.E0.scope == ps.scope && result.E0.offsideCol == ps.offsideCol
+//@   ensures progress: result.E0.tkz.current.begin > ps.tkz.current.begin
+
+//@ func psStringValNxL
+//@   props C16
+//@   requires live: live(ps)
+//@   panics may
+//@   ensures kept: live(result.E0) && samebuf(result.E0, ps) && result.E0.scope == ps.scope && result.E0.offsideCol == ps.offsideCol
+//@   ensures progress: result.E0.tkz.current.begin > ps.tkz.current.begin
+
 //@ func parsePackage
-//@   trusted
+//@   props C16
+//@   requires live: live(ps)
 //@   panics may
+//@   ensures statement: ps.tkz.current.ttype == New_TokenType_PACKAGE && result.E1 == RootStmt_RSPackage(adv(ps).tkz.current.stringVal)
+//@   ensures kept: live(result.E0) && samebuf(result.E0, ps) && result.E0.scope == ps.scope && result.E0.offsideCol == ps.offsideCol
+//@   ensures progress: result.E0.tkz.current.begin > ps.tkz.current.begin
+
 //@ func parseImport
+//@   props C16
+//@   requires live: live(ps)
+//@   panics may
+//@   ensures kept: live(result.E0) && samebuf(result.E0, ps) && result.E0.scope == ps.scope && result.E0.offsideCol == ps.offsideCol
+//@   ensures progress: result.E0.tkz.current.begin > ps.tkz.current.begin
+
+//@ func parseRawLet
+//@   trusted
+//@   modifies maps glob:vardefs glob:typeregs
+//@   panics may
+//@   ensures kept: live(ps) ==> live(result.E0) && samebuf(result.E0, ps) && result.E0.tkz.current.begin > ps.tkz.current.begin && result.E0.scope == ps.scope && result.E0.offsideCol == ps.offsideCol
+//@   note abstract: one let (variable, destructuring or function form) with its body
+
+//@ func InferLfd
+//@   trusted
+//@   modifies maps
+//@   panics may
+//@   ensures name-kept: result.Lfd.Fvar.Name == lfd.Fvar.Name
+//@   note abstract: type inference of a function definition; the function keeps its name
+
+//@ func rfdToFuncFactory
 //@   trusted
 //@   panics may
+
+// a top-level let: a variable is defined in the root scope; a function is registered as a FACTORY under its
+// name (so that every reference instantiates its type parameters afresh)
 //@ func parseRootLet
-//@   trusted
+//@   props C03 C07 C16
+//@   modifies maps glob:vardefs glob:typeregs
+//@   ghost L int                 -- the definition log after the let's own body was parsed
+//@   requires live: live(ps0)
 //@   panics may
+//@   ensures C03 a-function-is-registered-as-a-factory: is(RootStmt_RSRootFuncDef, result.E1) ==> glob(vardefs) == reg_varfac(L, result.E0.scope, RootStmt_RSRootFuncDef_Value(result.E1).Lfd.Fvar.Name)
+//@   ensures C03 a-variable-is-defined: is(RootStmt_RSRootVarDef, result.E1) ==> glob(vardefs) == def_var(L, result.E0.scope, RootStmt_RSRootVarDef_Value(result.E1).Vdef.Lvar.Name, RootStmt_RSRootVarDef_Value(result.E1).Vdef.Lvar)
+//@   ensures kept: live(result.E0) && samebuf(result.E0, ps0) && result.E0.tkz.current.begin > ps0.tkz.current.begin && result.E0.scope == ps0.scope && result.E0.offsideCol == ps0.offsideCol
+//@   at after call parseRawLet#0: L = glob(vardefs)
+
 //@ func parseTypeDef
 //@   trusted
+//@   modifies maps glob:vardefs glob:typeregs glob:tvaresets
 //@   panics may
+//@   ensures kept: live(ps) ==> live(result.E0) && samebuf(result.E0, ps) && result.E0.tkz.current.begin > ps.tkz.current.begin
 //@ func psForErrMsg
 //@   trusted
 //@   panics never
@@ -1534,10 +1588,11 @@ package main
 //@     invariant no-rhs-yet: calls(pExpr) == old(calls(pExpr))
 
 //@ func psStringValNx
-//@   props C06
+//@   props C06 C16
 //@   requires live: live(ps)
 //@   panics may
 //@   ensures live: live(result.E0) && samebuf(result.E0, ps)
+//@   ensures string: ps.tkz.current.ttype == New_TokenType_STRING && result.E0 == adv(ps) && result.E1 == ps.tkz.current.stringVal
 
 //@ func parseStringMatchRule
 //@   props C06
